@@ -121,7 +121,19 @@ Definition get_segment_intersection (p1 p2 p3 p4 ip : pt) : bool * pt :=
     if feq0 res3 then (strictly_between p3 p1 p2, p3)
     else if feq0 res4 then (strictly_between p4 p1 p2, p4)
     else if Bool.eqb (fgt0 res3) (fgt0 res4) then (false, ip)
-    else get_segment_intersect_pt p1 p2 p3 p4 ip.
+    else
+      let '(ok, q) := get_segment_intersect_pt p1 p2 p3 p4 ip in
+      if negb ok then (false, q)
+      else (* p3-p4 is an axis-parallel edge of the rectangle: the computed (truncated) point is put onto it *)
+        if px p3 =? px p4 then
+          let lo := if py p3 <? py p4 then py p3 else py p4 in
+          let hi := if py p3 <? py p4 then py p4 else py p3 in
+          (true, (px p3, if py q <? lo then lo else if py q >? hi then hi else py q))
+        else if py p3 =? py p4 then
+          let lo := if px p3 <? px p4 then px p3 else px p4 in
+          let hi := if px p3 <? px p4 then px p4 else px p3 in
+          (true, (if px q <? lo then lo else if px q >? hi then hi else px q, py p3))
+        else (true, q).
 
 Section WithGsi.
   (* the structural theorems keep the segment intersection function abstract *)
